@@ -29,5 +29,16 @@ CHECKS = {
                      "per successful changing write and none otherwise, HEAD's tree equal to the served members (blob ids recomputed by the harness), a clean `git status` on "
                      "tree stores and a clean `git fsck --strict`.",
                 note="Trusted: git 2.39; the harness's classification of a step as changing (served-bytes fingerprint before/after)."),
+    "C03": dict(level="exploration", design="DESIGN.md section 4 C03",
+                technique="runtime monitoring: enumerated cross product of (resource state x header value class x header x method x front end x backend) judged by an RFC 7232 matcher in the harness + state audit after every case",
+                text="Held on the enumerated cross product (about 400 cases per front end and backend, all executed in the thorough tier and on tree-git in the quick tier): every "
+                     "conditional PUT/DELETE was executed iff the harness's RFC 7232 evaluation of the header against the resource's observed ETag history allowed it, refusals were "
+                     "412 and changed nothing (target and bystander re-read), GET/HEAD with a matching If-None-Match answered 304 without body; same for the etag arguments of the Store API.",
+                note="Trusted: harness matcher; ETags observed by GET; weak tags in If-None-Match, repeated header lines and unquoted values are outside the judged set."),
+    "C06": dict(level="exploration", design="DESIGN.md section 4 C06",
+                technique="runtime monitoring: uid->holder map recomputed from served bodies by an independent parser at every audit of generated histories; every no-uid-conflict answer judged against it",
+                text="Held on the recorded histories: no audit ever saw two live calendar resources with one UID, every no-uid-conflict refusal coincided with another live holder of "
+                     "that UID, refused writes changed nothing, and UIDs were reusable right after their holder was deleted or changed UID (incl. after delete+recreate of the collection and restarts).",
+                note="Trusted: vf/icl.py UID extraction; generated objects carry one UID per resource."),
 }
 NOT_APPLICABLE = {}
